@@ -26,6 +26,8 @@ pub struct LoopCampaign {
   /// hybrid only: every send of the schedule fails in turn at the OS level under the real writer
   pub write_faults: bool,
   pub io_faults: bool,
+  /// hybrid only: every run lets the loop's poll go through the shipped RealDriver::poll (otherwise one run in two)
+  pub force_syspoll: bool,
   pub quick_runs: u64,
   pub thorough_runs: u64,
   pub shipped: Vec<NamedLayout>,
@@ -34,12 +36,13 @@ pub struct LoopCampaign {
 impl LoopCampaign {
   pub fn new(property: &'static str, source: SourceB, quick_runs: u64, thorough_runs: u64) -> LoopCampaign {
     let shipped = if source == SourceB::Shipped { shipped_layouts() } else { vec![] };
-    LoopCampaign { property, source, en: EnB::only(property), force_special: false, force_tablet: false, sweep: false, hybrid: false, write_faults: false, io_faults: false, quick_runs, thorough_runs, shipped }
+    LoopCampaign { property, source, en: EnB::only(property), force_special: false, force_tablet: false, sweep: false, hybrid: false, write_faults: false, io_faults: false, force_syspoll: false, quick_runs, thorough_runs, shipped }
   }
   pub fn special(mut self) -> Self { self.force_special = true; self }
   pub fn tablet(mut self) -> Self { self.force_tablet = true; self }
   pub fn sweep(mut self) -> Self { self.sweep = true; self }
   pub fn hybrid(mut self) -> Self { self.hybrid = true; self }
+  pub fn syspoll(mut self) -> Self { self.hybrid = true; self.force_syspoll = true; self }
   pub fn write_faults(mut self) -> Self { self.write_faults = true; self.hybrid = true; self }
 
   pub fn generate(&self, seed: u64, thorough: bool) -> CaseB {
@@ -122,7 +125,7 @@ impl LoopCampaign {
     let span = t.max(1);
     let kbd_end_at = if rng.chance(1, 8) { Some(rng.below(span as usize + 1) as u64) } else { None };
     let tab_end_at = if has_tablet && rng.chance(1, 16) { Some(rng.below(span as usize + 1) as u64) } else { None };
-    CaseB { layout, layout_name: name, kbd, tab, has_tablet, cfg, tape: vec![], fail_at: None, extra_ticks: rng.below(6) as u32, kbd_end_at, tab_end_at, hybrid: self.hybrid, write_fault: None, read_fault: None }
+    CaseB { layout, layout_name: name, kbd, tab, has_tablet, cfg, tape: vec![], fail_at: None, extra_ticks: rng.below(6) as u32, kbd_end_at, tab_end_at, hybrid: self.hybrid, write_fault: None, read_fault: None, poll_fault: None, syspoll: self.hybrid && (self.force_syspoll || rng.chance(1, 2)) }
   }
 }
 
@@ -143,7 +146,9 @@ fn hybrid_label(en: &EnB, msg: &str) -> Option<&'static str> {
   let driver_only = msg.starts_with("[driver]");
   // the real driver not telling the loop about the tablet switch means tablet mode is not entered "immediately"
   let tablet_missed = msg.starts_with("[driver][tablet]") || msg.starts_with("[driver] [tablet]");
-  if en.c18 && !driver_only { Some("C18-hybrid") } else if en.c10 { Some("C10-hybrid") } else if en.c12 && tablet_missed { Some("C12-hybrid") } else { None }
+  // the real driver waiting longer than the loop asked, or reporting a time-out before the time has passed, is the timer's business
+  let timer = msg.starts_with("[driver][timer]");
+  if en.c18 && !driver_only { Some("C18-hybrid") } else if en.c11 && timer { Some("C11-hybrid") } else if en.c09 && timer { Some("C09-hybrid") } else if en.c10 { Some("C10-hybrid") } else if en.c12 && tablet_missed { Some("C12-hybrid") } else { None }
 }
 
 /// Execute in replay mode and evaluate the enabled projection.
@@ -246,14 +251,15 @@ pub fn minimise_b(case: &CaseB, en: &EnB, label: &str, cause: &str) -> (CaseB, V
 }
 
 impl Campaign for LoopCampaign {
-  fn name(&self) -> String { format!("loopsim-{}{}{}{}", match self.source { SourceB::Shipped => "shipped", SourceB::Random => "random" }, if self.sweep { "-sweep" } else { "" }, if self.write_faults { "-writefault" } else { "" }, if self.hybrid { "-hybrid" } else { "" }) }
+  fn name(&self) -> String { format!("loopsim-{}{}{}{}", match self.source { SourceB::Shipped => "shipped", SourceB::Random => "random" }, if self.sweep { "-sweep" } else { "" }, if self.write_faults { "-writefault" } else { "" }, if self.force_syspoll { "-syspoll" } else if self.hybrid { "-hybrid" } else { "" }) }
   fn world(&self) -> &'static str { "B" }
   fn runs(&self, thorough: bool) -> u64 { if thorough { self.thorough_runs } else { self.quick_runs } }
   fn declare(&self, acc: &mut Acc) {
     for f in ["signal_interrupts_poll", "spurious_timeout_idle", "spurious_readiness", "io_latency_in_call", "timer_oversleep", "keyboard_unplugged", "tablet_switch_unplugged", "device_order_flipped", "arrival_during_drain", "backoff_sleep"] { acc.declare_fault(f); }
     if self.sweep { acc.declare_fault("io_error_in_driver_call"); }
     if self.write_faults { for f in ["os_write_eagain_under_real_writer", "os_write_epipe_under_real_writer", "os_write_ebadf_under_real_writer", "os_read_ebadf_under_real_driver"] { acc.declare_fault(f); } }
-    if self.hybrid { acc.declare_probe("real_driver_polls_cross_checked"); }
+    if self.hybrid { if !self.force_syspoll { acc.declare_probe("real_driver_polls_cross_checked"); } acc.declare_probe("polls_through_the_shipped_real_driver_poll"); acc.declare_probe("wait_syscall_timed_out_in_simulated_kernel"); acc.declare_fault("wait_syscall_interrupted_eintr"); acc.declare_fault("wait_syscall_fabricated_readiness"); acc.declare_fault("wait_syscall_stale_edge_dropped"); }
+    if self.write_faults { for f in ["os_poll_ebadf_under_real_driver", "os_poll_einval_under_real_driver", "os_poll_efault_under_real_driver"] { acc.declare_fault(f); } }
     acc.declare_probe("wakeup_with_two_or_more_events"); acc.declare_probe("both_devices_ready_in_one_wakeup");
     if self.property == "C11" || self.property == "C12" || self.property == "C10" { acc.declare_probe("repeat_chords_sent"); acc.declare_probe("timer_ticks"); }
     if self.property == "C11" || self.property == "C09" { for p in ["chord_while_keys_held", "chord_with_repeat_key_already_held", "timer_disarmed_by_key_event", "ignored_event_while_timer_armed", "poll_with_overdue_timer"] { acc.declare_probe(p); } }
@@ -283,6 +289,9 @@ impl Campaign for LoopCampaign {
       acc.fault("signal_interrupts_poll", s.eintr); acc.fault("spurious_timeout_idle", s.spurious_timeout); acc.fault("spurious_readiness", s.spurious_ready);
       acc.fault("io_latency_in_call", s.latency); acc.fault("timer_oversleep", s.oversleep); acc.fault("keyboard_unplugged", s.kbd_unplugged); acc.fault("tablet_switch_unplugged", s.tab_unplugged);
       acc.fault("io_error_in_driver_call", s.io_error); acc.fault("os_write_eagain_under_real_writer", s.os_write_fault[0]); acc.fault("os_write_epipe_under_real_writer", s.os_write_fault[1]); acc.fault("os_write_ebadf_under_real_writer", s.os_write_fault[2]); acc.fault("os_read_ebadf_under_real_driver", s.os_read_fault); acc.fault("os_read_enodev_unplug_under_real_driver", s.os_enodev); acc.fault("hangup_on_unplug_cross_checked_against_real_poll", s.hangups_cross_checked);
+      acc.probe_n("polls_through_the_shipped_real_driver_poll", s.sys_polls_through_real_driver); acc.probe_n("wait_syscall_timed_out_in_simulated_kernel", s.sys_wait_timeouts); acc.probe_n("wait_syscall_sub_millisecond_timeout_truncated_by_driver", s.sys_subms_truncated);
+      acc.fault("wait_syscall_interrupted_eintr", s.sys_wait_eintr); acc.fault("wait_syscall_fabricated_readiness", s.sys_fabricated_ready); acc.fault("wait_syscall_stale_edge_dropped", s.sys_stale_dropped);
+      acc.fault("os_poll_ebadf_under_real_driver", s.os_poll_fault[0]); acc.fault("os_poll_einval_under_real_driver", s.os_poll_fault[1]); acc.fault("os_poll_efault_under_real_driver", s.os_poll_fault[2]);
       acc.probe_n("real_driver_polls_cross_checked", s.real_polls_compared); acc.fault("device_order_flipped", s.order_flipped); acc.fault("arrival_during_drain", s.arrival_during_drain); acc.fault("backoff_sleep", s.backoff_sleeps);
       acc.probe_n("wakeup_with_two_or_more_events", s.multi_event_wakeups); acc.probe_n("both_devices_ready_in_one_wakeup", s.both_devices_ready); acc.probe_n("wakeup_with_sixteen_or_more_events", s.max_events_one_wakeup);
       acc.count("steps", o.trace.len() as u64); acc.count("sim_us", o.sim_us); acc.count("backoff_slept_us", o.slept_us); acc.count("trace_cap_hit", s.trace_cap_hit);
@@ -364,6 +373,27 @@ impl Campaign for LoopCampaign {
           }
         }
       }
+      // every wait system call of this schedule fails in turn underneath the real driver's poll
+      if verdict.is_none() && case.syspoll {
+        'outer3: for k in 0..out.stats.sys_waits as usize {
+          for kind in 0..3u8 {
+            let mut ck = case.clone(); ck.poll_fault = Some((k, kind));
+            match run_b(&ck, None) {
+              Ok(ok) => {
+                evaluations_extra += 1;
+                tally(&ok, acc);
+                let mut o2 = ObsB::default();
+                let v = match catch_unwind(AssertUnwindSafe(|| check_trace(&l, &ok.trace, &ok.result, &en, &mut o2))) { Ok(v) => v, Err(e) => { harness_error = Some(format!("reference loop panicked: {}", panic_msg(&e))); None } };
+                state_hashes.push(o2.shape);
+                digest = crate::rng::mix(digest, ok.digest);
+                if ok.stats.os_poll_fault.iter().sum::<u64>() == 0 { acc.count("runs_not_replaying_exactly", 1); }
+                if let Some(v) = v { verdict = Some(v); fail_case = ck; break 'outer3; }
+              }
+              Err(_) => { acc.count("sut_panics_in_sweep", 1); }
+            }
+          }
+        }
+      }
       acc.count("os_fault_executions", evaluations_extra);
     }
     acc.probe_n("repeat_chords_sent", obs.chords); acc.probe_n("timer_ticks", out.stats.timer_ticks);
@@ -391,7 +421,7 @@ impl Campaign for LoopCampaign {
     format!("layout = {}; key history as in world A (length 2-18 quick, 2-40 thorough) turned into arrivals with gaps drawn from {{0 (same batch), <5 ms, 20-100 ms, 150-550 ms}}; tablet on/off events sprinkled in{}; schedule/fault choices (order of the two devices in one wake-up, latency inside a call, signal interruption at an arbitrary instant with simulated 4 s/8 s back-off, spurious time-out while idle, spurious readiness, timer oversleep <=2 ms, device removal at an arbitrary time, 0-5 extra timer ticks) enabled swarm-style and recorded on a decision tape{}; a case is distinct by hash of (layout, arrivals, tape, fault point); non-trivial = {}",
       match self.source { SourceB::Shipped => "built-in or README layout", SourceB::Random => "random small layout (Special repeats with delay 0-200 ms, interval 1-60 ms)" },
       if self.force_tablet { " (tablet switch always present)" } else { " (tablet switch present in 1/3 of the runs)" },
-      if self.sweep { "; then the schedule is re-executed once per driver call with exactly that call (register, poll, read or send) returning an I/O error" } else if self.write_faults { "; bytes go through the real reader/writer on pipes, and the schedule is re-executed once per send x {EAGAIN (queue full), EPIPE (consumer gone), EBADF} with the OS-level write under the real DevInputWriter failing" } else { "" },
+      if self.sweep { "; then the schedule is re-executed once per driver call with exactly that call (register, poll, read or send) returning an I/O error" } else if self.write_faults { "; bytes go through the real reader/writer on pipes, and the schedule is re-executed once per send x {EAGAIN (queue full), EPIPE (consumer gone), EBADF} with the OS-level write under the real DevInputWriter failing, once per keyboard/tablet read with the read failing (EBADF), and - in the runs whose poll goes through the shipped RealDriver::poll - once per wait system call x {EBADF, EINVAL, EFAULT}" } else { "" },
       match self.property {
         "C10" => "a wake-up delivered >=2 events, or readiness for both devices, or was preceded by an interruption/spurious time-out",
         "C11" => ">=2 repeat chords in the run, or a chord while another key was held",
